@@ -574,6 +574,9 @@ func runC14(r *fw.Run) {
 	}
 	fw.Parallel(16, len(hists), func(w, i int) {
 		h := hists[i]
+		if r.ViolationCount() > 12 {
+			return
+		}
 		r.Journal(w, h)
 		var viol []string
 		if p := catch(func() { viol = runC14Hist(r, h) }); p != "" {
